@@ -227,6 +227,10 @@ class Replayer:
                     self.fail(node, beh, k, bk, "dtype-export", f"column {n}: exported {e_}, specification {w}")
         except Exception as e:  # noqa: BLE001
             self.fail(node, beh, k, bk, "dtype-static", f"dtype accessor raised {exc_class(e)}: {e}")
+        if self.opts.get("roundtrip"):
+            self.check_roundtrip(node, beh, k, bk, tbl, df)
+        if self.opts.get("targets"):
+            self.check_targets(node, beh, k, bk, tbl, df, obs)
         # --- data
         specdef = obs["pdef"] if bk == "polars" else obs["sdef"]
         if not (specdef and side.datadef):
@@ -239,6 +243,144 @@ class Replayer:
         if res is not None:
             self.fail(node, beh, k, bk, res[0], res[1], expected=obs["rows"][:8], actual=CMP.frame_rows(df_cmp)[:8])
         return df
+
+    # ------------------------------------------------------------------
+    def check_roundtrip(self, node, beh, k, bk, tbl, df):
+        """C12 / C20: Table(exported frame) reproduces data and column types."""
+        R = self.R
+        try:
+            t2 = R.pdt.Table(df)
+            df2 = t2 >> R.export(R.pdt.Polars())
+            if list(df2.columns) != list(df.columns) or df2.schema != df.schema:
+                self.fail(node, beh, k, bk, "dtype-roundtrip", f"re-imported frame schema {dict(df2.schema)} != exported {dict(df.schema)}")
+            elif not df2.equals(df, null_equal=True):
+                self.fail(node, beh, k, bk, "roundtrip-data", "re-imported frame differs from the exported one")
+            st1 = {c.name: CMP.pdt_family(c.dtype()) for c in tbl}
+            st2 = {c.name: CMP.pdt_family(c.dtype()) for c in t2}
+            for n in st2:
+                a, b = st1.get(n), st2[n]
+                if a is None or a == b or b == "null" or a == "null":
+                    continue
+                if bk != "polars" and {a, b} <= {"int", "float", "bool"}:
+                    continue
+                self.fail(node, beh, k, bk, "dtype-roundtrip", f"column {n}: static type family {a} before export, {b} after re-import")
+        except Exception as e:  # noqa: BLE001
+            self.fail(node, beh, k, bk, "dtype-roundtrip", f"re-import raised {exc_class(e)}: {e}")
+
+    def check_targets(self, node, beh, k, bk, tbl, df, obs):
+        """C20: every export target describes the same table as export(Polars())."""
+        R = self.R
+        pdt = R.pdt
+        names = list(df.columns)
+        rows = CMP.frame_rows(df)
+
+        def bad(what, detail):
+            self.fail(node, beh, k, bk, "target", f"{what}: {detail}")
+
+        def same_rows(a, b):
+            return CMP.compare_rows(a, b, None, list(range(len(a)))) is None
+
+        try:
+            lz = tbl >> R.export(pdt.Polars(lazy=True))
+            d2 = lz.collect() if hasattr(lz, "collect") else lz   # SQL backends hand back an eager frame
+            if list(d2.columns) != names or d2.schema != df.schema:
+                bad("Polars(lazy=True)", f"schema {dict(d2.schema)} vs {dict(df.schema)}")
+            elif not self.frames_equal(df, d2, obs, bk):
+                bad("Polars(lazy=True)", "collected lazy frame differs from export(Polars())")
+        except Exception as e:  # noqa: BLE001
+            bad("Polars(lazy=True)", f"raised {exc_class(e)}: {e}")
+        try:
+            dl = tbl >> R.export(pdt.DictOfLists())
+            if list(dl.keys()) != names:
+                bad("DictOfLists", f"keys {list(dl.keys())} vs {names}")
+            else:
+                r2 = [list(r) for r in zip(*[dl[n] for n in names])] if names and rows else []
+                if not self.rows_equal(rows, r2, obs, bk):
+                    bad("DictOfLists", f"values differ: {r2[:3]} vs {rows[:3]}")
+        except Exception as e:  # noqa: BLE001
+            bad("DictOfLists", f"raised {exc_class(e)}: {e}")
+        try:
+            ld = tbl >> R.export(pdt.ListOfDicts())
+            if any(list(d.keys()) != names for d in ld):
+                bad("ListOfDicts", "keys differ")
+            else:
+                r2 = [[d[n] for n in names] for d in ld]
+                if not self.rows_equal(rows, r2, obs, bk):
+                    bad("ListOfDicts", f"values differ: {r2[:3]} vs {rows[:3]}")
+        except Exception as e:  # noqa: BLE001
+            bad("ListOfDicts", f"raised {exc_class(e)}: {e}")
+        try:
+            pdf = tbl >> R.export(pdt.Pandas())
+            if list(pdf.columns) != names:
+                bad("Pandas", f"columns {list(pdf.columns)} vs {names}")
+            else:
+                import pandas as pd
+
+                r2 = [[None if pd.isna(v) else (v.item() if hasattr(v, "item") else v) for v in rec] for rec in pdf.itertuples(index=False, name=None)]
+                if not self.rows_equal(rows, r2, obs, bk):
+                    bad("Pandas", f"values differ: {r2[:3]} vs {rows[:3]}")
+                back = pdt.Table(pdf) >> R.export(pdt.Polars())
+                if list(back.columns) != names or [CMP.pl_family(t) for t in back.dtypes] != [CMP.pl_family(t) for t in df.dtypes]:
+                    okn = all(a == b or "null" in (a, b) for a, b in zip([CMP.pl_family(t) for t in back.dtypes], [CMP.pl_family(t) for t in df.dtypes]))
+                    if not okn:
+                        bad("Pandas", f"Table(pandas export) has types {back.dtypes} vs {df.dtypes}")
+        except NotImplementedError:
+            if bk == "polars":
+                bad("Pandas", "raised NotImplementedError")
+            else:
+                self.stats["pandas_target_unavailable_on_sql"] = self.stats.get("pandas_target_unavailable_on_sql", 0) + 1
+        except Exception as e:  # noqa: BLE001
+            bad("Pandas", f"raised {exc_class(e)}: {e}")
+        # Dict / Scalar where applicable
+        if df.height == 1:
+            try:
+                d1 = tbl >> R.export(pdt.Dict())
+                if list(d1.keys()) != names or not self.rows_equal(rows, [[d1[n] for n in names]], obs, bk):
+                    bad("Dict", f"{d1} vs {rows}")
+            except Exception as e:  # noqa: BLE001
+                bad("Dict", f"raised {exc_class(e)}: {e}")
+            if len(names) == 1:
+                try:
+                    sc = tbl >> R.export(pdt.Scalar())
+                    if not self.rows_equal(rows, [[sc]], obs, bk):
+                        bad("Scalar", f"{sc!r} vs {rows}")
+                except Exception as e:  # noqa: BLE001
+                    bad("Scalar", f"raised {exc_class(e)}: {e}")
+        # ColExpr.export of every visible column (a separate path: get_expr_as_table)
+        if obs["part"] == [] and names:
+            try:
+                for c in tbl:
+                    ser = c.export(pdt.Polars())
+                    if ser.name != c.name:
+                        bad("ColExpr.export", f"series name {ser.name!r} vs column {c.name!r}")
+                    col_rows = [[v] for v in ser.to_list()]
+                    want = [[r[names.index(c.name)]] for r in rows]
+                    if not self.rows_equal(want, col_rows, obs, bk, single=names.index(c.name)):
+                        bad("ColExpr.export", f"column {c.name}: {col_rows[:4]} vs {want[:4]}")
+            except Exception as e:  # noqa: BLE001
+                bad("ColExpr.export", f"raised {exc_class(e)}: {e}")
+
+    def order_cls(self, obs, bk, n):
+        """class vector that licenses sequence comparison between two exports of the SAME table on one backend"""
+        cls = obs["pcls"] if bk == "polars" else obs["scls"]
+        defd = obs["pdef"] if bk == "polars" else obs["sdef"]
+        if not defd or len(cls) != n:
+            return None
+        return cls
+
+    def rows_equal(self, a, b, obs, bk, single=None):
+        if len(a) != len(b):
+            return False
+        tys = obs["tys"] if len(obs["tys"]) == (len(a[0]) if a else len(obs["tys"])) else None
+        if single is not None:
+            tys = [obs["tys"][single]] if single < len(obs["tys"]) else None
+        specdef = obs["pdef"] if bk == "polars" else obs["sdef"]
+        if not specdef:
+            return True     # repeated evaluation of an order-undetermined pipeline may legitimately differ
+        return CMP.compare_rows(a, b, tys, self.order_cls(obs, bk, len(a))) is None
+
+    def frames_equal(self, d1, d2, obs, bk):
+        return self.rows_equal(CMP.frame_rows(d1), CMP.frame_rows(d2), obs, bk)
 
     # ------------------------------------------------------------------
     def run_side(self, node, beh, k, side, step):
